@@ -9,6 +9,7 @@ import (
 	"strconv"
 	"strings"
 
+	gio "github.com/whatap/golib/io"
 	"github.com/whatap/golib/util/hmap"
 )
 
@@ -122,12 +123,12 @@ type inst struct {
 	exec func(o op) string // canonical result of one operation ("?unsupported" if the type lacks it)
 	dump func() dump
 	// several live containers / caller-held results
-	keyArrayWrite func() string   // KeyArray()/GetArray(): the keys, then the caller overwrites the returned slice
-	openEnum      func()          // take Entries()/Keys() enumerators now …
-	drainEnum     func() string   // … drain them later (the container is not modified in between)
-	toBytes       func() []byte   // IntIntLinkedMap / LongLongLinkedMap
-	toObjectBytes func(b []byte)  // ToObject of another map's bytes
-	keySetWrite   func() string   // IntKeyLinkedMap.GetKeySet()/ToKeySet(): the keys, then the caller modifies the returned set
+	keyArrayWrite func() string  // KeyArray()/GetArray(): the keys, then the caller overwrites the returned slice
+	openEnum      func()         // take Entries()/Keys() enumerators now …
+	drainEnum     func() string  // … drain them later (the container is not modified in between)
+	toBytes       func() []byte  // IntIntLinkedMap / LongLongLinkedMap
+	toObjectBytes func(b []byte) // ToObject of another map's bytes
+	keySetWrite   func() string  // IntKeyLinkedMap.GetKeySet()/ToKeySet(): the keys, then the caller modifies the returned set
 }
 
 const enumSlack = 8
@@ -154,8 +155,8 @@ type objAPI[K any] struct {
 	toK                     func(key) K
 	kTok                    func(K) string
 	less                    func(a, b K) bool
-	openKeys    func() func() []K
-	openEntries func() func() []interface{}
+	openKeys                func() func() []K
+	openEntries             func() func() []interface{}
 }
 
 type kvGetter[K any] interface {
@@ -164,7 +165,7 @@ type kvGetter[K any] interface {
 }
 
 func (a *objAPI[K]) inst() *inst {
-	return &inst{
+	it := &inst{
 		exec: func(o op) string {
 			k := a.toK(o.k)
 			switch o.code {
@@ -248,6 +249,44 @@ func (a *objAPI[K]) inst() *inst {
 			return d
 		},
 	}
+	it.keyArrayWrite = func() string {
+		ks := a.keyArray()
+		var toks []string
+		for _, k := range ks {
+			toks = append(toks, a.kTok(k))
+		}
+		var zero K
+		for i := range ks {
+			ks[i] = zero
+		}
+		return joinToks(toks)
+	}
+	var pendE func() []interface{}
+	var pendK func() []K
+	it.openEnum = func() { pendE, pendK = a.openEntries(), a.openKeys() }
+	it.drainEnum = func() string {
+		if pendE == nil {
+			it.openEnum()
+		}
+		var ps []pairS
+		var ks, ks2 []string
+		for _, e := range pendE() {
+			if g, ok := e.(kvGetter[K]); ok {
+				ps = append(ps, pairS{a.kTok(g.GetKey()), objVal(g.GetValue())})
+				ks = append(ks, a.kTok(g.GetKey()))
+			}
+		}
+		for _, k := range pendK() {
+			ks2 = append(ks2, a.kTok(k))
+		}
+		pendE, pendK = nil, nil
+		out := joinPairs(ps)
+		if joinToks(ks) != joinToks(ks2) {
+			out += "!keys=" + joinToks(ks2)
+		}
+		return out
+	}
+	return it
 }
 
 func boolTok(b bool) string {
@@ -351,7 +390,7 @@ func newLinkedMap(c ctor) *inst {
 			en := m.Entries()
 			return func() []interface{} { return drainEnum(en, m.Size()) }
 		},
-		toK:      func(k key) hmap.LinkedKey { return &hk{id: k.i, mode: c.hmode} }, kTok: objKeyTok, less: lessObj}
+		toK: func(k key) hmap.LinkedKey { return &hk{id: k.i, mode: c.hmode} }, kTok: objKeyTok, less: lessObj}
 	return a.inst()
 }
 
@@ -367,7 +406,7 @@ func newIntKeyLinkedMap(c ctor) *inst {
 		firstValue: m.GetFirstValue, lastValue: m.GetLastValue, remove: m.Remove,
 		removeFirst: m.RemoveFirst, removeLast: m.RemoveLast, isEmpty: m.IsEmpty, isFull: m.IsFull, clear: m.Clear,
 		setMax: func(n int) { m.SetMax(n) }, sort: m.Sort,
-		keys:     func() []int32 { return drainInt(m.Keys(), m.Size()) },
+		keys: func() []int32 { return drainInt(m.Keys(), m.Size()) },
 		openKeys: func() func() []int32 {
 			en := m.Keys()
 			return func() []int32 { return drainInt(en, m.Size()) }
@@ -379,8 +418,51 @@ func newIntKeyLinkedMap(c ctor) *inst {
 			en := m.Entries()
 			return func() []interface{} { return drainEnum(en, m.Size()) }
 		},
-		toK:      toI32, kTok: i32Tok, less: lessI32}
-	return a.inst()
+		toK: toI32, kTok: i32Tok, less: lessI32}
+	it := a.inst()
+	var keptSet *hmap.IntLinkedSet // a result the caller kept unmodified; it must still hold its keys later
+	var keptKeys string
+	calls := 0
+	it.keySetWrite = func() string {
+		note := ""
+		if keptSet != nil {
+			var toks []string
+			for _, k := range drainInt(keptSet.Keys(), keptSet.Size()) {
+				toks = append(toks, i32Tok(k))
+			}
+			if joinToks(toks) != keptKeys {
+				note = "!kept-GetKeySet-result-changed:" + joinToks(toks)
+			}
+			keptSet = nil
+		}
+		set := m.GetKeySet()
+		var toks []string
+		for _, k := range drainInt(set.Keys(), set.Size()) {
+			toks = append(toks, i32Tok(k))
+		}
+		l := m.ToKeySet() // PushFront of every key: back → front is the map's order
+		var toks2 []string
+		for e := l.Back(); e != nil; e = e.Prev() {
+			if k, ok := e.Value.(int32); ok {
+				toks2 = append(toks2, i32Tok(k))
+			}
+		}
+		out := joinToks(toks)
+		if joinToks(toks2) != out {
+			out += "!ToKeySet=" + joinToks(toks2)
+		}
+		calls++
+		if calls%2 == 1 {
+			keptSet, keptKeys = set, joinToks(toks) // kept as returned
+		} else { // the caller owns the results and modifies them
+			set.Put(123456789)
+			set.RemoveFirst()
+			set.Clear()
+		}
+		l.Init()
+		return out + note
+	}
+	return it
 }
 
 func newLongKeyLinkedMap(c ctor) *inst {
@@ -395,7 +477,7 @@ func newLongKeyLinkedMap(c ctor) *inst {
 		firstValue: m.GetFirstValue, lastValue: m.GetLastValue, remove: m.Remove,
 		removeFirst: m.RemoveFirst, removeLast: m.RemoveLast, isEmpty: m.IsEmpty, isFull: m.IsFull, clear: m.Clear,
 		setMax: func(n int) { m.SetMax(n) }, sort: m.Sort,
-		keys:     func() []int64 { return drainLong(m.Keys(), m.Size()) },
+		keys: func() []int64 { return drainLong(m.Keys(), m.Size()) },
 		openKeys: func() func() []int64 {
 			en := m.Keys()
 			return func() []int64 { return drainLong(en, m.Size()) }
@@ -407,7 +489,7 @@ func newLongKeyLinkedMap(c ctor) *inst {
 			en := m.Entries()
 			return func() []interface{} { return drainEnum(en, m.Size()) }
 		},
-		toK:      toI64, kTok: i64Tok, less: lessI64}
+		toK: toI64, kTok: i64Tok, less: lessI64}
 	return a.inst()
 }
 
@@ -418,7 +500,7 @@ func newStringKeyLinkedMap(c ctor) *inst {
 		firstValue: m.GetFirstValue, lastValue: m.GetLastValue, remove: m.Remove,
 		removeFirst: m.RemoveFirst, removeLast: m.RemoveLast, isEmpty: m.IsEmpty, isFull: m.IsFull, clear: m.Clear,
 		setMax: func(n int) { m.SetMax(n) }, sort: m.Sort,
-		keys:     func() []string { return drainStr(m.Keys(), m.Size()) },
+		keys: func() []string { return drainStr(m.Keys(), m.Size()) },
 		openKeys: func() func() []string {
 			en := m.Keys()
 			return func() []string { return drainStr(en, m.Size()) }
@@ -430,7 +512,7 @@ func newStringKeyLinkedMap(c ctor) *inst {
 			en := m.Entries()
 			return func() []interface{} { return drainEnum(en, m.Size()) }
 		},
-		toK:      toStr, kTok: strTok, less: lessStr}
+		toK: toStr, kTok: strTok, less: lessStr}
 	return a.inst()
 }
 
@@ -459,8 +541,8 @@ type numAPI[K any, W any] struct {
 	less                              func(a, b K) bool
 	toW                               func(int64) W
 	wTok                              func(W) string
-	openKeys    func() func() []K
-	openEntries func() func() []interface{}
+	openKeys                          func() func() []K
+	openEntries                       func() func() []interface{}
 }
 
 type kwGetter[K any, W any] interface {
@@ -469,7 +551,7 @@ type kwGetter[K any, W any] interface {
 }
 
 func (a *numAPI[K, W]) inst() *inst {
-	return &inst{
+	it := &inst{
 		exec: func(o op) string {
 			k := a.toK(o.k)
 			w := a.toW(o.v)
@@ -565,6 +647,44 @@ func (a *numAPI[K, W]) inst() *inst {
 			return d
 		},
 	}
+	it.keyArrayWrite = func() string {
+		ks := a.keyArray()
+		var toks []string
+		for _, k := range ks {
+			toks = append(toks, a.kTok(k))
+		}
+		var zero K
+		for i := range ks {
+			ks[i] = zero
+		}
+		return joinToks(toks)
+	}
+	var pendE func() []interface{}
+	var pendK func() []K
+	it.openEnum = func() { pendE, pendK = a.openEntries(), a.openKeys() }
+	it.drainEnum = func() string {
+		if pendE == nil {
+			it.openEnum()
+		}
+		var ps []pairS
+		var ks, ks2 []string
+		for _, e := range pendE() {
+			if g, ok := e.(kwGetter[K, W]); ok {
+				ps = append(ps, pairS{a.kTok(g.GetKey()), a.wTok(g.GetValue())})
+				ks = append(ks, a.kTok(g.GetKey()))
+			}
+		}
+		for _, k := range pendK() {
+			ks2 = append(ks2, a.kTok(k))
+		}
+		pendE, pendK = nil, nil
+		out := joinPairs(ps)
+		if joinToks(ks) != joinToks(ks2) {
+			out += "!keys=" + joinToks(ks2)
+		}
+		return out
+	}
+	return it
 }
 
 func w32(v int64) int32    { return int32(v) }
@@ -589,8 +709,15 @@ func newIntIntLinkedMap(c ctor) *inst {
 			en := m.Entries()
 			return func() []interface{} { return drainEnum(en, m.Size()) }
 		},
-		toK:     toI32, kTok: i32Tok, less: lessI32, toW: w32, wTok: i32Tok}
-	return a.inst()
+		toK: toI32, kTok: i32Tok, less: lessI32, toW: w32, wTok: i32Tok}
+	it := a.inst()
+	it.toBytes = func() []byte {
+		o := gio.NewDataOutputX()
+		m.ToBytes(o)
+		return o.ToByteArray()
+	}
+	it.toObjectBytes = func(b []byte) { m.ToObject(gio.NewDataInputX(b)) }
+	return it
 }
 
 func newLongLongLinkedMap(c ctor) *inst {
@@ -616,8 +743,15 @@ func newLongLongLinkedMap(c ctor) *inst {
 			en := m.Entries()
 			return func() []interface{} { return drainEnum(en, m.Size()) }
 		},
-		toK:     toI64, kTok: i64Tok, less: lessI64, toW: w64, wTok: i64Tok}
-	return a.inst()
+		toK: toI64, kTok: i64Tok, less: lessI64, toW: w64, wTok: i64Tok}
+	it := a.inst()
+	it.toBytes = func() []byte {
+		o := gio.NewDataOutputX()
+		m.ToBytes(o)
+		return o.ToByteArray()
+	}
+	it.toObjectBytes = func(b []byte) { m.ToObject(gio.NewDataInputX(b)) }
+	return it
 }
 
 func newIntFloatLinkedMap(c ctor) *inst {
@@ -638,7 +772,7 @@ func newIntFloatLinkedMap(c ctor) *inst {
 			en := m.Entries()
 			return func() []interface{} { return drainEnum(en, m.Size()) }
 		},
-		toK:     toI32, kTok: i32Tok, less: lessI32, toW: wf32, wTok: f32Tok}
+		toK: toI32, kTok: i32Tok, less: lessI32, toW: wf32, wTok: f32Tok}
 	return a.inst()
 }
 
@@ -660,7 +794,7 @@ func newLongFloatLinkedMap(c ctor) *inst {
 			en := m.Entries()
 			return func() []interface{} { return drainEnum(en, m.Size()) }
 		},
-		toK:     toI64, kTok: i64Tok, less: lessI64, toW: wf32, wTok: f32Tok}
+		toK: toI64, kTok: i64Tok, less: lessI64, toW: wf32, wTok: f32Tok}
 	return a.inst()
 }
 
@@ -696,7 +830,7 @@ func newStringIntLinkedMap(c ctor) *inst {
 			en := m.Entries()
 			return func() []interface{} { return drainEnum(en, m.Size()) }
 		},
-		toK:     toStr, kTok: strTok, less: lessStr, toW: w32, wTok: i32Tok}
+		toK: toStr, kTok: strTok, less: lessStr, toW: w32, wTok: i32Tok}
 	return a.inst()
 }
 
@@ -732,7 +866,7 @@ func newStringLongLinkedMap(c ctor) *inst {
 			en := m.Entries()
 			return func() []interface{} { return drainEnum(en, m.Size()) }
 		},
-		toK:     toStr, kTok: strTok, less: lessStr, toW: w64, wTok: i64Tok}
+		toK: toStr, kTok: strTok, less: lessStr, toW: w64, wTok: i64Tok}
 	return a.inst()
 }
 
@@ -754,7 +888,7 @@ type setAPI[K any] struct {
 	kTok                    func(K) string
 	less                    func(a, b K) bool
 	retTok                  func(interface{}) string // the key an operation returned
-	openKeys    func() func() []K
+	openKeys                func() func() []K
 }
 
 // setRet renders the result of put/remove on a set: the key itself when the element was present,
@@ -772,7 +906,7 @@ func (a *setAPI[K]) ret(x interface{}) string {
 }
 
 func (a *setAPI[K]) inst() *inst {
-	return &inst{
+	it := &inst{
 		exec: func(o op) string {
 			k := a.toK(o.k)
 			switch o.code {
@@ -832,6 +966,32 @@ func (a *setAPI[K]) inst() *inst {
 			return d
 		},
 	}
+	it.keyArrayWrite = func() string {
+		ks := a.keyArray()
+		var toks []string
+		for _, k := range ks {
+			toks = append(toks, a.kTok(k))
+		}
+		var zero K
+		for i := range ks {
+			ks[i] = zero
+		}
+		return joinToks(toks)
+	}
+	var pendK func() []K
+	it.openEnum = func() { pendK = a.openKeys() }
+	it.drainEnum = func() string {
+		if pendK == nil {
+			it.openEnum()
+		}
+		var ps []pairS
+		for _, k := range pendK() {
+			ps = append(ps, pairS{a.kTok(k), "0"})
+		}
+		pendK = nil
+		return joinPairs(ps)
+	}
+	return it
 }
 
 func newLinkedSet(c ctor) *inst {
@@ -872,7 +1032,7 @@ func newIntLinkedSet(c ctor) *inst {
 	a := &setAPI[int32]{size: m.Size, put: m.Put, putLast: m.PutLast, putFirst: m.PutFirst, contains: m.Contains,
 		first: m.GetFirst, last: m.GetLast, remove: m.Remove, removeFirst: m.RemoveFirst, removeLast: m.RemoveLast,
 		isEmpty: m.IsEmpty, isFull: m.IsFull, clear: m.Clear, setMax: func(n int) { m.SetMax(n) }, sort: m.Sort,
-		keys:     func() []int32 { return drainInt(m.Keys(), m.Size()) },
+		keys: func() []int32 { return drainInt(m.Keys(), m.Size()) },
 		openKeys: func() func() []int32 {
 			en := m.Keys()
 			return func() []int32 { return drainInt(en, m.Size()) }
@@ -893,7 +1053,7 @@ func newStringLinkedSet(c ctor) *inst {
 	a := &setAPI[string]{size: m.Size, put: m.Put, putLast: m.PutLast, putFirst: m.PutFirst, contains: m.Contains,
 		first: m.GetFirst, last: m.GetLast, remove: m.Remove, removeFirst: m.RemoveFirst, removeLast: m.RemoveLast,
 		isEmpty: m.IsEmpty, isFull: m.IsFull, clear: m.Clear, setMax: func(n int) { m.SetMax(n) }, sort: m.Sort,
-		keys:     func() []string { return drainStr(m.Keys(), m.Size()) },
+		keys: func() []string { return drainStr(m.Keys(), m.Size()) },
 		openKeys: func() func() []string {
 			en := m.Keys()
 			return func() []string { return drainStr(en, m.Size()) }
